@@ -297,6 +297,27 @@ def de43_plumbing(enc):
     return h
 
 
+def de43_custom_pattern(enc):
+    def h():
+        from . import ref
+        iso = M().iso8583
+        cfgs = {'2': {'field_type': 'LLVAR', 'field_length': 0},
+                '43': {'field_type': 'LLVAR', 'field_length': 0, 'field_processor': 'DE43',
+                       'field_processor_config': choose('pattern', [r'(?P<DE43_NAME>[^\\]+?) *\\', r'(?P<DE43_NAME>.{3})(?P<DE43_REST>.{2})', r'(?P<DE43_NAME>.+?) *\\(?P<DE43_ADDRESS>.+?) *\\'])}}
+        v = choose('de43', DE43_FAMILY)
+        msg = {'MTI': '1240', 'DE2': '5412345678901234', 'DE43': v}
+        rp = {'kind': 'decode', 'args': {'msg': msg, 'enc': enc, 'hexbm': False, 'cfg': cfgs}}
+        core.set_fallback(rp, 'C02/concretised')
+        wire = ref.ref_encode(msg, cfgs, enc, False)
+        want, _ = ref.ref_decode(wire, cfgs, enc, False)
+        with guard('loads', 'C02/decode-refused', rp):
+            got = iso.loads(wire, encoding=enc, iso_config=cfgs)
+        require(got == want, 'decoded entries differ from the independent reading: %s' % sorted(k for k in set(got) | set(want) if got.get(k) != want.get(k)),
+                key='C02/de43', replay=rp)
+        return {'sample': {'DE43': v, 'derived': {k: x for k, x in got.items() if k.startswith('DE43_')}}, 'replay': rp}
+    return h
+
+
 def obligations(tier):
     q = tier == 'quick'
     check_codecs()
@@ -333,6 +354,12 @@ def obligations(tier):
     for direction, mk_h in (('enc', encode), ('dec', decode)):
         obs.append(Ob('generic/g-decimal/%s/cp500' % direction, mk_h(lambda: list(choose('subset', dsub)), 'cp500', False, cfgs=GENERIC_DEC), 300,
                       'caller-supplied configuration with decimal fields (FIXED 12 / LLVAR): concrete decimal values incl. exponent forms (1E+2, 2.5E+3, 1E-3)', _funcs))
+    from . import c12
+    obs.append(Ob('pds-packing/2-tags', c12.pack(['0023', '0158']), 120,
+                  'two PDSxxxx entries, every pair of value lengths 0..992: carriers hold tag(4) length(3) value in ascending order, at most 999 each, '
+                  'filled greedily (the C12 obligation, here for the layout of the encoded message)', _funcs))
+    obs.append(Ob('de43-prefix-pattern/latin_1', de43_custom_pattern('latin_1'), 120,
+                  'caller-supplied DE43 pattern that describes only the beginning of the field: the groups it defines are returned', _funcs))
     obs.append(Ob('pds-overflow/latin_1', pds_overflow('latin_1'), 120,
                   'more PDS data than the carrier elements hold (one configured carrier and 2 x 900; packaged carriers and 6 x 990): refused, or nothing missing', _funcs))
     for enc, hexbm in (('latin_1', False), ('cp500', True)):
